@@ -328,7 +328,9 @@ def check(ctx):
         def unit(a: T):
             return a.args[1].args[1] if (
                 a.op == "upd" and is_call_to(a.args[0], "numpy.zeros") and
-                tm.is_const(a.args[1]) and tm.is_const(a.args[2], 1)) \
+                tm.is_const(a.args[1]) and tm.is_const(a.args[2]) and
+                tm.const_val(a.args[2]) == 1 and
+                not isinstance(tm.const_val(a.args[2]), bool)) \
                 else None
         if av.op == "binop" and av.args[0] == "Mult":
             for a, b in ((av.args[1], av.args[2]), (av.args[2], av.args[1])):
@@ -371,6 +373,13 @@ def check(ctx):
                     exps[0].data["args"]) > 1 else dict(
                     exps[0].data["kwargs"]).get("angle")
         ok = axis_idx == normal
+        if axis_idx is None:
+            # the rotation vector is not `unit vector of the normal * angle`
+            # built from np.zeros(3): no evidence which axis it is
+            ctx.undecidable("C14.1", f, f"Plane.{member}: the axis of the "
+                            f"rebuilt rotation is not read from the so3_exp "
+                            f"argument {fmt(av)[:100]}")
+            continue
         ctx.ob("C14.1", f, ok,
                f"Plane.{member}: rotation is rebuilt about the plane normal "
                f"{LETTERS[normal]}" if ok else
